@@ -53,7 +53,7 @@ def make_custom(name):
     if name == "hamming":
         return "hamming"
     lev = oracles.levenshtein
-    scale = {"lev2": 2, "lev_plus_len": 1, "ham_or_big": 1, "lev_half": 0.5, "lev_frac": 0.25}[name]
+    scale = {"lev2": 2, "lev_plus_len": 1, "ham_or_big": 1, "lev_half": 0.5, "lev_frac": 0.25, "lev_np": 1, "lev_npf": 0.5}[name]
 
     if name == "lev2":
         def dist(a, b):
@@ -67,6 +67,16 @@ def make_custom(name):
     elif name == "lev_frac":
         def dist(a, b):
             return lev(str(a), str(b)) + scale * abs(len(a) - len(b))
+    elif name == "lev_np":  # numpy integer scalars
+        def dist(a, b):
+            import numpy as np
+
+            return np.int64(scale * lev(str(a), str(b)))
+    elif name == "lev_npf":  # numpy float scalars, non-integer values
+        def dist(a, b):
+            import numpy as np
+
+            return np.float64(scale * lev(str(a), str(b)))
     else:
         def dist(a, b):
             h = oracles.hamming_or_none(str(a), str(b))
@@ -138,7 +148,7 @@ def generate(seed, tier, index=0):
         alphabet = "".join(rng.sample(AA, asz))
     swarm = {
         "alphabet": alphabet,
-        "lengths": rng.choice([[3, 4], [4, 5, 6], [5, 8, 12], [0, 1, 2], [6, 7], [9, 10, 11, 12]]),
+        "lengths": rng.choice([[3, 4], [4, 5, 6], [5, 8, 12], [0, 1, 2], [6, 7], [9, 10, 11, 12], [16, 17, 19, 22]]),
         "max_n": rng.choice([4, 8, 12, 20, 40] if tier == "thorough" else [4, 8, 12, 20, 28]),
         "modes": rng.choice([["default"], ["hamming"], ["custom"], ["default", "hamming"], ["default", "hamming", "custom"],
                              ["default", "custom"]]),
@@ -166,27 +176,34 @@ def generate(seed, tier, index=0):
     for _ in range(swarm["steps"]):
         mode = rng.choice(swarm["modes"])
         if mode == "custom":
-            mode = rng.choice(["lev2", "lev_plus_len", "ham_or_big", "lev_half", "lev_frac"])
+            mode = rng.choice(["lev2", "lev_plus_len", "ham_or_big", "lev_half", "lev_frac", "lev_np", "lev_npf"])
         n = rng.choice([1, 2, 3, rng.randint(1, swarm["max_n"]), rng.randint(2, swarm["max_n"]), swarm["max_n"]])
         n = max(1, min(n, swarm["max_n"]))
         seqs = gen_seqs(rng, swarm, mode, n)
+        if rng.random() < 0.05 and n >= 2:
+            # (near-)identical lists: many duplicate points in the tree, all ties at d = 0
+            seqs = [seqs[0]] * n if rng.random() < 0.5 else [rng.choice(seqs[:2]) for _ in range(n)]
         mr = None
         if rng.random() < swarm["max_returns_p"]:
-            mr = rng.choice([1, 1, 2, 3, 5])
+            mr = rng.choice([1, 1, 2, 3, 5, 4, max(1, n - 1), n, 10 ** 6])
         mcd = None
         if mode not in ("default", "hamming"):
             mcd = rng.choice([None, None, 0, 1, 2.5, 4, 0.5, 1.25])
+        elif rng.random() < 0.2:
+            mcd = rng.choice([0, 1])  # documented as ignored without a custom distance
         ops.append({
             "op": "kdtree",
             "seqs": seqs,
-            "max_edits": rng.choice([1, 1, 2, 2, 3]),
+            "max_edits": rng.choice([1, 1, 2, 2, 3, 3, 4]),
             "max_returns": mr,
             "n_cpu": gen_ncpu(rng, n),
             "mode": mode,
             "max_custom_distance": mcd,
-            "compression": rng.choice([1, 1, 2, 3, 4, 5, 7, 10, 19, 20, 25]),
+            "compression": rng.choice([1, 1, 2, 3, 4, 5, 6, 7, 8, 9, 10, 19, 20, 21, 25]),
             "ref_first": rng.random() < 0.5,
-            "container": rng.choice(["list", "list", "list", "ndarray"]),
+            "container": rng.choice(["list", "list", "list", "ndarray", "tuple", "objarr"]),
+            "output_type": rng.choice(["triplets", "triplets", "triplets", "ndarray", "coo_matrix"]),
+            "raising_first": rng.random() < 0.06,
         })
     return {"property": PROP, "seed": seed, "tier": tier, "swarm": swarm, "ops": ops, "sched": sched}
 
@@ -197,7 +214,7 @@ def generate(seed, tier, index=0):
 def true_neighbours(seqs, k, mode, mcd):
     n = len(seqs)
     cust = make_custom(mode) if mode not in ("default", "hamming") else None
-    r = float("inf") if mcd is None else mcd
+    r = float("inf") if (mcd is None or cust is None) else mcd  # max_custom_distance is ignored without a custom distance
     N = [dict() for _ in range(n)]
     cache = {}
     for i in range(n):
@@ -264,11 +281,28 @@ def check_sentence2(res, seqs, k, m, mode, mcd):
 # execution
 # ---------------------------------------------------------------------------------------------
 def _container(seqs, kind):
-    if kind == "ndarray":
-        import numpy as np
+    import numpy as np
 
+    if kind == "ndarray":
         return np.array(seqs)
+    if kind == "objarr":
+        return np.array(seqs, dtype=object)
+    if kind == "tuple":
+        return tuple(seqs)
     return list(seqs)
+
+
+class _Raising:
+    """Custom distance that passes the argument check (f(first, first) == 0) and raises on its third call."""
+
+    def __init__(self):
+        self.calls = 0
+
+    def __call__(self, a, b):
+        self.calls += 1
+        if self.calls >= 3:
+            raise RuntimeError("injected failure inside a custom distance")
+        return 0 if a == b else 1
 
 
 def execute(trace, ctx=None):
@@ -291,14 +325,31 @@ def execute(trace, ctx=None):
         cd = make_custom(mode)
         npools_before = len(CTL.pools)
 
+        otype = op.get("output_type", "triplets")
+        if op.get("raising_first"):
+            # an earlier call of the history that fails inside the user's distance function (in the parent or in a worker):
+            # its own outcome is not judged; what it leaves behind (parameter block, pool) must not matter to the calls below
+            try:
+                nn.kdtree(list(seqs), max_edits=k, n_cpu=op["n_cpu"], custom_distance=_Raising())
+            except HarnessError:
+                raise
+            except BaseException:
+                pass
+            probe("fault_fired_callback_raise")
+
         def call(n_cpu, compression):
             stats["kdtree_calls"] += 1
             arg = _container(seqs, op.get("container", "list"))
-            kw = dict(max_edits=k, max_returns=m, n_cpu=n_cpu, custom_distance=cd, compression=compression)
+            kw = dict(max_edits=k, max_returns=m, n_cpu=n_cpu, custom_distance=cd, compression=compression, output_type=otype)
             if mcd is not None:
                 kw["max_custom_distance"] = mcd
             try:
                 r = nn.kdtree(arg, **kw)
+                if otype != "triplets":
+                    import numpy as np
+
+                    dense = r.toarray() if otype == "coo_matrix" else np.asarray(r)
+                    return ("value", [list(dense.shape)] + [[float(x) for x in row] for row in dense.tolist()])
                 return ("value", oracles.canon_triplets(r))
             except HarnessError:
                 raise
@@ -340,13 +391,17 @@ def execute(trace, ctx=None):
             violation = {"oracle": "config_differs", "op": "kdtree", "step": step,
                          "detail": "configured call returned %d triplets but the reference call raised %s: %s" % (
                              len(cfg[1]), ref[1], ref[2])}
+        elif cfg[0] == "value" and m is None and otype != "triplets" and cfg[1] != ref[1]:
+            violation = {"oracle": "config_differs", "op": "kdtree", "step": step,
+                         "detail": "n=%d n_cpu=%d compression=%d mode=%s k=%d output_type=%s: the dense matrices differ (shapes %r vs %r)" % (
+                             n, ncpu, op["compression"], mode, k, otype, cfg[1][0], ref[1][0])}
         elif cfg[0] == "value" and m is None and cfg[1] != ref[1]:
             a, b = set(cfg[1]), set(ref[1])
             violation = {"oracle": "config_differs", "op": "kdtree", "step": step,
                          "detail": "n=%d n_cpu=%d compression=%d mode=%s k=%d: configured-only %r ; reference-only %r ; sizes %d vs %d" % (
                              n, ncpu, op["compression"], mode, k, sorted(a - b)[:6], sorted(b - a)[:6], len(cfg[1]), len(ref[1]))}
         # oracle 2: sentence 2
-        if violation is None and m is not None:
+        if violation is None and m is not None and otype == "triplets":
             for which, res in (("configured", cfg), ("reference", ref)):
                 if res[0] != "value":
                     continue
@@ -439,6 +494,10 @@ def candidates(trace):
             yield _rep(trace, i, container="list")
         if op.get("ref_first"):
             yield _rep(trace, i, ref_first=False)
+        if op.get("output_type", "triplets") != "triplets":
+            yield _rep(trace, i, output_type="triplets")
+        if op.get("raising_first"):
+            yield _rep(trace, i, raising_first=False)
         for j, s in enumerate(seqs):
             if len(s) > 1:
                 for cut in (0, len(s) - 1):
